@@ -33,7 +33,12 @@ def maybe_launcher(b):
     import subprocess
 
     p = subprocess.Popen([sys.executable] + sys.argv, env=dict(os.environ, FAKEMD_WORKER="1"))
-    sys.exit(p.wait())
+    rc = p.wait()
+    if rc < 0:  # the worker was killed by a signal: die the same way
+        signal.signal(-rc, signal.SIG_DFL)
+        os.kill(os.getpid(), -rc)
+        time.sleep(5)
+    sys.exit(rc)
 
 
 class Term:
@@ -90,6 +95,10 @@ class Emitter:
         if b["die_at"] is not None and k == b["die_at"]:
             for h in handles:
                 h.flush()
+            if b.get("die_signal"):  # death by a signal (segfault, OOM kill, ...): negative return code for the parent
+                signal.signal(int(b["die_signal"]), signal.SIG_DFL)
+                os.kill(os.getpid(), int(b["die_signal"]))
+                time.sleep(5)
             os._exit(int(b["exit_code"]) or 1)
         if b["partial"] and k > 0:
             for h, t in zip(handles, texts):
